@@ -111,11 +111,11 @@ typedef struct {
 static scpi_t ctx;
 static char ibuf[320];
 static scpi_error_t eq[4];
-static char * g_buf; static size_t g_len, g_copy; static int g_ok, g_called;
+static char * g_buf; static size_t g_len, g_copy; static int g_ok, g_called, g_mand = 1;
 
 static scpi_result_t cb_txt(scpi_t * c) {
     g_called = 1;
-    g_ok = SCPI_ParamCopyText(c, g_buf, g_len, &g_copy, TRUE) ? 1 : 0;
+    g_ok = SCPI_ParamCopyText(c, g_buf, g_len, &g_copy, g_mand ? TRUE : FALSE) ? 1 : 0;
     return SCPI_RES_OK;
 }
 static int on_error(scpi_t * c, int_fast16_t e) { (void) c; (void) e; return 0; }
@@ -257,8 +257,10 @@ static int do_call(const call_t * c) {
         char line[320];
         memcpy(line, "TXT", 3); memcpy(line + 3, c->src, sl); line[3 + sl] = '\n';
         g_buf = (char *) buf; g_len = len; g_copy = 0; g_ok = 0; g_called = 0;
+        g_mand = c->flags ? 0 : 1;           /* flags = 1: the text is optional (and absent) */
         fresh();
         SCPI_Input(&ctx, line, (int) (sl + 4));
+        g_mand = 1;
         ret = 0;
         ok = g_called && !g_ok;
     } else if (!strcmp(c->api, "copy")) {
@@ -610,6 +612,10 @@ static void gen_fmt(long nrandom, int custom_dtostre) {
                 c.api = "copyfail"; c.src = bad[k]; c.bd = 1;
                 for (l = 0; l <= 3; l++) { c.len = l; both_modes(&c); }
             }
+            /* an optional text that is absent: reported absent, nothing written anywhere - not even into a buffer of length 0 */
+            memset(&c, 0, sizeof c);
+            c.api = "copyfail"; c.src = ""; c.bd = 1; c.flags = 1;
+            for (l = 0; l <= 3; l++) { c.len = l; both_modes(&c); }
         }
         for (k = 0; k < nt; k++) {
             size_t l;
